@@ -125,6 +125,18 @@ def lean_list(items, indent="  "):
     return "[\n" + ",\n".join(indent + "  " + i for i in items) + "]"
 
 
+def cmpop(s):
+    return {"<": ".lt", "<=": ".le", "==": ".eq", "!=": ".ne", ">": ".gt", ">=": ".ge"}.get(s, ".unknown")
+
+
+def intlit(s):
+    try:
+        v = int(s)
+    except (TypeError, ValueError):
+        return "0"
+    return str(v) if v >= 0 else f"({v})"
+
+
 def render(f):
     q = lambda s: '"' + s + '"'
     et = f["error_test"]
@@ -160,8 +172,14 @@ def dot11Catches : List String := [{", ".join(q(c) for c in f["dot11_catches"])}
 /-- exception types caught around the functor call in `BaseSniffer::sniff_loop` -/
 def sniffLoopCatches : List String := [{", ".join(q(c) for c in f["sniff_loop_catches"])}]
 
-/-- the test applied to the sniffing method's return value in the loop of `next_packet`: operator and constant -/
-def errorTest : String × String := ({q(et[1])}, {q(et[2])})
+/-- comparison operators of C -/
+inductive CmpOp where
+  | lt | le | eq | ne | gt | ge | unknown
+deriving Repr, DecidableEq
+
+/-- the test applied to the sniffing method's return value in the loop of `next_packet`
+    (`if (pcap_sniffing_method_(...) {et[1]} {et[2]}) return PtrPacket(0, Timestamp());`): operator and constant -/
+def errorTest : CmpOp × Int := ({cmpop(et[1])}, {intlit(et[2])})
 
 /-- `DataLinkType<T>::type` -/
 def dataLinkTypes : List (String × Nat) := {lean_list([f"({q(a)}, {b})" for a, b in f["data_link_types"]])}
